@@ -466,7 +466,12 @@ package json
 //@   flag assumepost strconv.AppendFloat emits a JSON number; the in-place rewrite of a trailing e-0d to e-d keeps it one (the byte automaton is not run backwards over an in-place edit)
 //@   requires valueok(dst)
 //@   ensures emitsvalue(res, dst)
-//@   ensures [C02] ncalls(math.IsNaN) == old(ncalls(math.IsNaN)) + 1 && callarg(math.IsNaN, old(ncalls(math.IsNaN)), 0) == val
+//@   ensures [C01,C02] ncalls(math.IsNaN) == old(ncalls(math.IsNaN)) + 1 && callarg(math.IsNaN, old(ncalls(math.IsNaN)), 0) == val
+//@   ensures [C01,C02] callres(math.IsNaN, old(ncalls(math.IsNaN)), 0) ==> ncalls(strconv.AppendFloat) == old(ncalls(strconv.AppendFloat)) && len(res) == len(dst) + 5 && res[len(dst)] == '"' && res[len(dst)+1] == 'N' && res[len(dst)+2] == 'a' && res[len(dst)+3] == 'N' && res[len(dst)+4] == '"'
+//@   ensures [C01,C02] !callres(math.IsNaN, old(ncalls(math.IsNaN)), 0) ==> ncalls(math.IsInf) >= old(ncalls(math.IsInf)) + 1 && callarg(math.IsInf, old(ncalls(math.IsInf)), 0) == val && callarg(math.IsInf, old(ncalls(math.IsInf)), 1) == 1
+//@   ensures [C01,C02] !callres(math.IsNaN, old(ncalls(math.IsNaN)), 0) && callres(math.IsInf, old(ncalls(math.IsInf)), 0) ==> ncalls(strconv.AppendFloat) == old(ncalls(strconv.AppendFloat)) && len(res) == len(dst) + 6 && res[len(dst)] == '"' && res[len(dst)+1] == '+' && res[len(dst)+2] == 'I' && res[len(dst)+5] == '"'
+//@   ensures [C01,C02] !callres(math.IsNaN, old(ncalls(math.IsNaN)), 0) && !callres(math.IsInf, old(ncalls(math.IsInf)), 0) ==> ncalls(math.IsInf) == old(ncalls(math.IsInf)) + 2 && callarg(math.IsInf, old(ncalls(math.IsInf)) + 1, 0) == val && callarg(math.IsInf, old(ncalls(math.IsInf)) + 1, 1) == -1
+//@   ensures [C01,C02] !callres(math.IsNaN, old(ncalls(math.IsNaN)), 0) && !callres(math.IsInf, old(ncalls(math.IsInf)), 0) && callres(math.IsInf, old(ncalls(math.IsInf)) + 1, 0) ==> ncalls(strconv.AppendFloat) == old(ncalls(strconv.AppendFloat)) && len(res) == len(dst) + 6 && res[len(dst)] == '"' && res[len(dst)+1] == '-' && res[len(dst)+5] == '"'
 //@   ensures [C02] !callres(math.IsNaN, old(ncalls(math.IsNaN)), 0) && ncalls(math.IsInf) == old(ncalls(math.IsInf)) + 2 && !callres(math.IsInf, old(ncalls(math.IsInf)), 0) && !callres(math.IsInf, old(ncalls(math.IsInf)) + 1, 0) ==> ncalls(strconv.AppendFloat) == old(ncalls(strconv.AppendFloat)) + 1 && callarg(strconv.AppendFloat, old(ncalls(strconv.AppendFloat)), 1) == val && callarg(strconv.AppendFloat, old(ncalls(strconv.AppendFloat)), 3) == precision && callarg(strconv.AppendFloat, old(ncalls(strconv.AppendFloat)), 4) == bitSize && (callarg(strconv.AppendFloat, old(ncalls(strconv.AppendFloat)), 2) == 'e' || callarg(strconv.AppendFloat, old(ncalls(strconv.AppendFloat)), 2) == 'f')
 //@   ensures [C02] precision != -1 && ncalls(strconv.AppendFloat) == old(ncalls(strconv.AppendFloat)) + 1 ==> callarg(strconv.AppendFloat, old(ncalls(strconv.AppendFloat)), 2) == 'f'
 
